@@ -213,6 +213,8 @@ func runC09(c *Check) {
 	ruleNilGuard(c, p)
 	c.Doc("C09-R6", "EO: the hand-off of an admitted item to sync cannot be skipped: blocking send, or select with cancellation as the only alternative.")
 	ruleHandOffNotDroppable(c, p)
+	c.Doc("C09-R7", "VP+GA: the scan cursor starts at the persisted state's DA height raised to the configured start height.")
+	ruleScanStart(c, p)
 }
 
 // producedCodes: StatusCode constants appearing as Code in RetrieveWithHelpers' return literals.
@@ -667,5 +669,51 @@ func ruleHandOffNotDroppable(c *Check, p *Prog) {
 	}
 	if n < 4 {
 		c.Unk(rule, "hand-off-sends", "", "", fmt.Sprintf("anchor lost: %d hand-off sends found (4 confirmed by hand)", n))
+	}
+}
+
+// ruleScanStart (C09-R7).
+func ruleScanStart(c *Check, p *Prog) {
+	nm := p.MustFunc(blockF("NewManager"))
+	g := BuildECFG(p, nm, ExpandOpts{MaxDepth: 0})
+	c.NoteGraph(g)
+	fn := fnName(nm)
+	// the cursor: the *atomic.Uint64 stored into the manager; its initial Store
+	inits := g.Select(func(n *Node) bool {
+		if CallName(n) != "(*sync/atomic.Uint64).Store" {
+			return false
+		}
+		r := RecvTerm(n)
+		return r != nil && r.Op == "alloc"
+	})
+	if len(inits) != 1 {
+		c.Unk("C09-R7", "NewManager ⟂ cursor-init", fn, "", fmt.Sprintf("anchor lost: %d initial stores of a local atomic counter in NewManager", len(inits)))
+		return
+	}
+	v := ArgTerm(inits[0], 1)
+	okV := v.Op == "field" && v.Name == "DAHeight"
+	// the raise: a store state.DAHeight = config.DA.StartHeight guarded by state.DAHeight < config.DA.StartHeight, before the init
+	raise := g.Select(func(n *Node) bool {
+		st, ok := n.In.(*ssa.Store)
+		if !ok {
+			return false
+		}
+		at := TermOf(st.Addr, n.Ctx)
+		return at.Op == "field" && at.Name == "DAHeight" && strings.HasSuffix(TermOf(st.Val, n.Ctx).String(), ".DA.StartHeight")
+	})
+	guarded := false
+	for _, r := range raise {
+		for _, f := range g.NecessaryEdges(nodeSet([]*Node{r})) {
+			t := f.Cond
+			if f.Pol && t.Op == "bin" && t.Name == "<" && strings.HasSuffix(t.Args[0].String(), "DAHeight") && strings.HasSuffix(t.Args[1].String(), ".DA.StartHeight") {
+				guarded = true
+			}
+		}
+	}
+	before := len(raise) > 0 && g.PathAvoiding(inits, nodeSet(raise), nil) == nil
+	if okV && guarded && before {
+		c.OK("C09-R7", "NewManager ⟂ cursor = max(state.DAHeight, configured start)", fn, p.InstrPos(inits[0].In), "the scan starts at the persisted DA height, raised to the configured start height when that is higher", true)
+	} else {
+		c.Bad("C09-R7", "NewManager ⟂ cursor = max(state.DAHeight, configured start)", fn, p.InstrPos(inits[0].In), fmt.Sprintf("the scan cursor is not initialised to max(state.DAHeight, config.DA.StartHeight) (from-state=%v raise-guarded=%v raise-before-init=%v): DA heights at or after the configured start can be skipped, or the scan starts before it", okV, guarded, before), nil)
 	}
 }
